@@ -20,6 +20,7 @@
 #include "base_node.h"
 #include "log.h"
 #include "scheme.h"
+#include "verif_hook.h"
 
 #include "glog/logging.h"
 
@@ -73,6 +74,7 @@ public:
     }
 
     [[nodiscard]] std::size_t get_empty_slot() const {
+        YK_VERIF(k_load, this, f_perm, 0);
         std::uint64_t per_body(body_.load(std::memory_order_acquire));
         std::size_t cnk = per_body & cnk_mask;
         if (cnk == 0) { return 0; }
@@ -90,10 +92,12 @@ public:
     }
 
     [[nodiscard]] std::uint64_t get_body() const {
+        YK_VERIF(k_load, this, f_perm, 0);
         return body_.load(std::memory_order_acquire);
     }
 
     [[nodiscard]] std::uint8_t get_cnk() const {
+        YK_VERIF(k_load, this, f_perm, 0);
         std::uint64_t per_body(body_.load(std::memory_order_acquire));
         return static_cast<uint8_t>(per_body & cnk_mask);
     }
@@ -168,6 +172,7 @@ public:
     void
     rearrange(const std::array<key_slice_type, key_slice_length>& key_slice,
               const std::array<key_length_type, key_slice_length>& key_length) {
+        YK_VERIF(k_load, this, f_perm, 0);
         std::uint64_t per_body(body_.load(std::memory_order_acquire));
         // get current number of keys
         auto cnk = static_cast<uint8_t>(per_body & cnk_mask);
@@ -194,10 +199,12 @@ public:
             new_body <<= pkey_bit_size;
         }
         new_body |= cnk;
+        YK_VERIF(k_store, this, f_perm, 0);
         body_.store(new_body, std::memory_order_release);
     }
 
     void set_body(const std::uint64_t nb) {
+        YK_VERIF(k_store, this, f_perm, 0);
         body_.store(nb, std::memory_order_release);
     }
 
@@ -207,9 +214,11 @@ public:
             LOG(ERROR) << log_location_prefix << "unreachable path";
         }
 #endif
+        YK_VERIF(k_load, this, f_perm, 0);
         std::uint64_t body = body_.load(std::memory_order_acquire);
         body &= ~cnk_mask;
         body |= cnk;
+        YK_VERIF(k_store, this, f_perm, 0);
         body_.store(body, std::memory_order_release);
         return status::OK;
     }
